@@ -41,6 +41,7 @@ def gen(tier):
         for pre in pres + (TOGGLE if cb == 1 else []):
             for fk in MUT_1:
                 if tier == "quick" and cb == 3 and fk not in ("ADD", "DRAIN", "PREPEND", "REMOVE"): continue
+                if tier == "quick" and fk in ("RESERVE_COMMIT2", "ADD_IOVEC", "EXPAND") and pre not in ([], [(A, "ADD", 16)]): continue
                 obs.append(C12.evb_split(13, pre, (A, fk), cb=cb, name_prefix="cb%d_" % cb, extra_defs=xd, **C12.timeouts(fk, tier)))
         for x in ([[], [(A, "ADD", 3)]] if tier == "quick" else [[], [(A, "ADD", 3)], [(A, "ADD", 16)], [(A, "REF", 3)]]):
             for y in PB_Q:
